@@ -20,5 +20,7 @@ def run(ctx, rep):
         rt.rule_is_boundary(rep, lg, cfg)
         rt.rule_rounding(rep, lg, cfg)
         rt.rule_accessor_operands(rep, lg, cfg, cfg == 'logos-forbid')
+    if ctx.tier == 'thorough':
+        rt.rule_witnesses(rep, ctx)
     rep.trusted += ['rustc nightly MIR', 'engines/mirfacts', 'regex-syntax Properties::is_utf8; regex-automata UTF-8 NFA compilation']
     pass
